@@ -297,6 +297,27 @@ func RunC01(tier, replay string) int {
 				cases = append(cases, c01Case{Name: "rich spec " + w.name, Class: "switch:" + w.name, Doc: rich, Target: t, Args: w.args, Strict: true})
 			}
 		}
+		// ---- (5) security definition sets: every scheme kind, several schemes of one kind, schemes sharing
+		// the parameter name across locations, alternatives combining them
+		for _, sv := range c01SecurityVariants() {
+			d := richSpec()
+			d["securityDefinitions"] = sv.defs
+			d["security"] = sv.global
+			for _, pi := range at(d, "paths") {
+				for _, op := range pi.(J) {
+					if o, ok := op.(J); ok {
+						delete(o, "security")
+					}
+				}
+			}
+			if err := validSpec(d); err != nil {
+				r.HarnessError("security variant %s is not a valid spec: %v", sv.name, err)
+				continue
+			}
+			for _, t := range []string{"server", "client", "cli"} {
+				cases = append(cases, c01Case{Name: "security " + sv.name, Class: "security:" + sv.name, Doc: d, Target: t, Strict: true})
+			}
+		}
 		if tier == "thorough" {
 			// pairs of switches on the server target
 			for i := range switches {
@@ -383,8 +404,11 @@ func RunC01(tier, replay string) int {
 			r.Violate(evid.Violation{Signature: fmt.Sprintf("%s | generate-fails | %s | %s", c.Target, sigClass(c.Class), compilerClass(res.genErr)), What: fmt.Sprintf("generate %s %v fails on a plain valid document [%s]: %s", c.Target, c.Args, c.Name, trunc(res.genErr, 300)), Case: c, Observed: res.genErr})
 			r.CaseKeyed(key, sample, false, "VIOLATION:generate-fails")
 		case res.genErr != "":
-			r.Count("refused(non-zero exit on hostile names)", 1)
-			r.CaseKeyed(key, sample, false, "refused")
+			// names: the carrier passed validate.Spec, so the document is valid Swagger and the property
+			// demands success for any name with a letter; a refusal is a violation as well
+			r.Count("refused(non-zero exit on a valid document with hostile names)", 1)
+			r.Violate(evid.Violation{Signature: fmt.Sprintf("%s | name-refused | %s | %s", c.Target, sigClass(c.Class), compilerClass(res.genErr)), What: fmt.Sprintf("generate %s %v fails on a valid document [%s]: %s", c.Target, c.Args, c.Name, trunc(lastLines(res.genErr, 3), 300)), Case: c, Observed: trunc(res.genErr, 1500)})
+			r.CaseKeyed(key, sample, true, "VIOLATION:name-refused")
 		case res.buildErr != "":
 			fl := firstErrorLine(res.buildErr)
 			r.Violate(evid.Violation{Signature: fmt.Sprintf("%s | build | %s | %s", c.Target, sigClass(c.Class), compilerClass(fl)), What: fmt.Sprintf("generate %s %v exits 0 on [%s] but the result does not build: %s", c.Target, c.Args, c.Name, trunc(fl, 300)), Case: c, Observed: trunc(res.buildErr, 2000)})
@@ -416,6 +440,43 @@ func RunC01(tier, replay string) int {
 		}
 	}
 	return r.Finish()
+}
+
+type c01SecVariant struct {
+	name   string
+	defs   J
+	global A
+}
+
+func c01SecurityVariants() []c01SecVariant {
+	key := func(in, name string) J { return J{"type": "apiKey", "in": in, "name": name} }
+	oauth := func(flow string) J {
+		o := J{"type": "oauth2", "flow": flow, "scopes": J{"read": "r", "write": "w"}}
+		if flow == "implicit" || flow == "accessCode" {
+			o["authorizationUrl"] = "https://example.com/a"
+		}
+		if flow == "password" || flow == "application" || flow == "accessCode" {
+			o["tokenUrl"] = "https://example.com/t"
+		}
+		return o
+	}
+	req := func(names ...string) J {
+		o := J{}
+		for _, n := range names {
+			o[n] = A{}
+		}
+		return o
+	}
+	return []c01SecVariant{
+		{"none", J{}, A{}},
+		{"two-keys-same-param-header+query", J{"k1": key("header", "api_key"), "k2": key("query", "api_key")}, A{req("k1", "k2")}},
+		{"two-keys-same-location", J{"k1": key("header", "X-A"), "k2": key("header", "X-B")}, A{req("k1"), req("k2")}},
+		{"two-keys-names-differ-by-case", J{"key": key("header", "X-Key"), "Key": key("query", "key")}, A{req("key", "Key")}},
+		{"two-basic", J{"b1": J{"type": "basic"}, "b2": J{"type": "basic"}}, A{req("b1"), req("b2")}},
+		{"four-oauth-flows", J{"o1": oauth("implicit"), "o2": oauth("password"), "o3": oauth("application"), "o4": oauth("accessCode")}, A{J{"o1": A{"read"}}, J{"o2": A{"read", "write"}, "o3": A{}}, J{"o4": A{"write"}}}},
+		{"all-kinds-and", J{"b": J{"type": "basic"}, "k": key("query", "k"), "o": oauth("password")}, A{J{"b": A{}, "k": A{}, "o": A{"read"}}}},
+		{"unused-definitions", J{"b": J{"type": "basic"}, "k": key("header", "X-K")}, A{}},
+	}
 }
 
 func sigClass(class string) string {
